@@ -20,13 +20,22 @@ from serif.errors import SerifValueError, SerifTypeError  # noqa
 # --------------------------------------------------------------------------------------
 # value pools: a key *pattern* is written over {None, 0, 1, 2}; `kind` maps it to a typed value
 # --------------------------------------------------------------------------------------
-KIND_TYPE = {'int': int, 'str': str, 'bool': bool, 'date': date}
+KIND_TYPE = {'int': int, 'str': str, 'bool': bool, 'date': date, 'ihc1': int, 'ihc2': int}
+# 'ihc1' / 'ihc2' (int, hash-colliding): DIFFERENT ints whose Python hashes are EQUAL
+#   hash(-1) == hash(-2) == -2            hash(0) == hash(2**61 - 1) == 0
+# (tuple hashes are computed from the component hashes, so composite keys that differ only in such
+# a component collide as well).  Key equality, not hash equality, decides a match / a group.
+MERSENNE61 = 2 ** 61 - 1
 KIND_POOL = {
     'int': {0: 0, 1: 1, 2: 2},
     'str': {0: 'a', 1: 'b', 2: 'c'},
     'bool': {0: False, 1: True},
     'date': {0: date(2020, 1, 1), 1: date(2021, 6, 15), 2: date(2022, 2, 2)},
+    'ihc1': {0: -1, 1: -2, 2: 0},
+    'ihc2': {0: 0, 1: MERSENNE61, 2: -1},
 }
+assert hash(-1) == hash(-2) and hash(0) == hash(MERSENNE61) and hash((-1, 0)) == hash((-2, MERSENNE61))
+HC_KINDS = ('ihc1', 'ihc2')
 
 
 def keyval(kind, p):
@@ -125,6 +134,14 @@ class JoinSetup:
             self.rrows = [tuple(rpay[j][i] for j in range(case['pr'])) + self.rkeys[i] for i in range(len(rk))]
         self.L = Table(lcols)
         self.R = Table(rcols)
+        ector = case.get('empty_ctor')
+        if ector:
+            # a ZERO-ROW side is not built from empty lists (untyped columns) but by filtering every
+            # row out of a one-row table: it keeps its columns, their names and their dtypes
+            if not lk:
+                self.L, lkc = self._filtered_empty('L', ector, mode, lkn, lpn, case['pl'], keys_first=True)
+            if not rk:
+                self.R, rkc = self._filtered_empty('R', ector, mode, rkn, rpn, case['pr'], keys_first=False)
         if mode == 'name':
             self.lon, self.ron = list(lkn), list(rkn)
         elif mode == 'col':
@@ -136,6 +153,25 @@ class JoinSetup:
             # a single key may be passed bare (name or Vector) rather than in a list
             self.lon, self.ron = self.lon[0], self.ron[0]
         self.nl, self.nr = len(self.lnames), len(self.rnames)
+
+    def _filtered_empty(self, side, ector, mode, kn, pn, npay, keys_first):
+        """(zero-row table, zero-row external key vectors) obtained by filtering a one-row table:
+        ector 'mask' = boolean mask that is False everywhere, 'slice' = [0:0]."""
+        kinds = self.case['kinds']
+        kc = [mk_col([keyval(kinds[j], 0)], kn[j], kinds[j]) for j in range(self.nk)]
+        pc = [mk_col([self.marker(side, 0, j)], pn[j]) for j in range(npay)]
+
+        def empty(x):
+            return x[Vector([False])] if ector == 'mask' else x[0:0]
+
+        if mode == 'ext':
+            cols = pc
+        else:
+            cols = kc + pc if keys_first else pc + kc
+        t = empty(Table(cols)) if cols else Table(cols)
+        if len(t) != 0 or len(t.cols()) != len(cols):
+            raise AssertionError(f'filtering every row out did not give a zero-row table with {len(cols)} columns: {view(t)!r}')
+        return t, [empty(k) for k in kc]
 
     @staticmethod
     def marker(side, i, j):
@@ -181,8 +217,10 @@ class JoinSetup:
         return self.lnames + self.rnames
 
 
-def check_join_output(pid, op, res, want_rows, want_names, fails, descr):
-    """Compare a join result with the definition: rows (values, order), names, C03 truthfulness."""
+def check_join_output(pid, op, res, want_rows, want_names, fails, descr, tag=''):
+    """Compare a join result with the definition: rows (values, order), names, C03 truthfulness.
+    `tag` (e.g. ':hash-colliding-keys') is appended to the row failure class for input families
+    that expose a defect of their own."""
     m = truthful(res)
     if m:
         fails.append(Fail(f'C03:{op}:truthful', f'{descr}: {m}', None, m))
@@ -193,7 +231,7 @@ def check_join_output(pid, op, res, want_rows, want_names, fails, descr):
         return None
     cls = classify_rows(got, want_rows)
     if cls:
-        fails.append(Fail(f'{pid}:{op}:{cls}', f'{descr}: rows differ from the definition', want_rows, got,
+        fails.append(Fail(f'{pid}:{op}:{cls}{tag}', f'{descr}: rows differ from the definition', want_rows, got,
                           f'{pid}:{op}:post'))
     names = list(res.column_names())
     # The statement speaks about the columns of each output ROW; for a zero-row result it does not
@@ -227,6 +265,16 @@ POOL3_4 = [(0, 0, 0), (0, 0, 1), (0, 1, 0), (None, 0, 0)]
 KINDS1 = [['int'], ['str'], ['bool'], ['date']]
 KINDS2 = [['int', 'int'], ['int', 'str'], ['str', 'date'], ['bool', 'int']]
 KINDS3 = [['int', 'int', 'int'], ['str', 'int', 'date']]
+# hash-colliding int keys: alone, and as one / both components of a composite key
+KINDS1_HC = [['ihc1'], ['ihc2']]
+KINDS2_HC = [['ihc1', 'ihc2'], ['ihc1', 'int'], ['str', 'ihc2']]
+KINDS3_HC = [['ihc1', 'int', 'ihc2'], ['str', 'ihc2', 'ihc1']]
+POOL1_3V = [(None,), (0,), (1,), (2,)]
+
+
+def hc_tag(case):
+    """Failure-class suffix for cases whose key values collide in hash."""
+    return ':hash-colliding-keys' if any(k in HC_KINDS for k in case.get('kinds', ())) else ''
 
 
 def _cfg(i):
@@ -247,12 +295,18 @@ def join_blocks(tier, heavy=False):
                 ('2key-pool4', POOL2_4, 2, 2, [['int', 'int']], 1),
                 ('2key-full', POOL2_FULL, 2, 1, KINDS2, 'rotate-kind'),
                 ('2key-full', POOL2_FULL, 1, 2, KINDS2, 'rotate-kind'),
+                ('1key-hashcollide', POOL1, 3, 3, KINDS1_HC, 'rotate-kind'),
+                ('2key-hashcollide', POOL2_3, 3, 3, KINDS2_HC, 'rotate-kind'),
+                ('2key-hashcollide', POOL2_4, 2, 2, KINDS2_HC, 1),
             ]
         return [
             ('1key', POOL1, 3, 3, [['int']], 2),
             ('1key-typed', POOL1, 3, 3, KINDS1[1:], 1),
             ('2key-pool4', POOL2_4, 3, 3, [['int', 'int']], 1),
             ('2key-full', POOL2_FULL, 2, 2, KINDS2, 'rotate-kind'),
+            ('1key-hashcollide', POOL1, 3, 3, KINDS1_HC, 1),
+            ('2key-hashcollide', POOL2_4, 3, 3, KINDS2_HC, 'rotate-kind'),
+            ('3key-hashcollide', POOL3_4, 2, 2, KINDS3_HC, 1),
         ]
     if heavy:
         return [
@@ -261,6 +315,10 @@ def join_blocks(tier, heavy=False):
             ('2key-pool5', POOL2_5, 3, 3, [['int', 'int']], 1),
             ('2key-full', POOL2_FULL, 2, 2, KINDS2, 'rotate-kind'),
             ('3key-pool4', POOL3_4, 3, 3, KINDS3, 'rotate-kind'),
+            ('1key-hashcollide', POOL1, 4, 4, KINDS1_HC, 'rotate-kind'),
+            ('1key-hashcollide-3values', POOL1_3V, 3, 3, KINDS1_HC, 1),
+            ('2key-hashcollide', POOL2_5, 3, 3, KINDS2_HC, 'rotate-kind'),
+            ('3key-hashcollide', POOL3_4, 3, 3, KINDS3_HC, 'rotate-kind'),
         ]
     return [
         ('1key', POOL1, 4, 4, [['int']], 4),
@@ -270,6 +328,11 @@ def join_blocks(tier, heavy=False):
         ('2key-full', POOL2_FULL, 3, 2, KINDS2, 'rotate-kind'),
         ('2key-full', POOL2_FULL, 2, 3, KINDS2, 'rotate-kind'),
         ('3key-pool4', POOL3_4, 3, 3, KINDS3, 1),
+        ('1key-hashcollide', POOL1, 4, 4, KINDS1_HC, 1),
+        ('1key-hashcollide-3values', POOL1_3V, 3, 3, KINDS1_HC, 2),
+        ('2key-hashcollide', POOL2_5, 3, 3, KINDS2_HC, 1),
+        ('2key-hashcollide', POOL2_FULL, 2, 2, KINDS2_HC, 1),
+        ('3key-hashcollide', POOL3_4, 3, 3, KINDS3_HC, 1),
     ]
 
 
